@@ -284,8 +284,8 @@ func (x *exec) callEffects(ef *effects, ins ssa.CallInstruction, depth int, seen
 		}
 	}
 	if key == "" {
-		if a := varOf(c.Value); a != nil && x.unit != nil && x.unit.Spec != nil && x.unit.Spec.DynCalls[a.Comment] != "" {
-			ef.calls["var:"+a.Comment] = true
+		if n := dynName(c.Value); n != "" && x.unit != nil && x.unit.Spec != nil && x.unit.Spec.DynCalls[n] != "" {
+			ef.calls["var:"+n] = true
 			return
 		}
 		ef.all = true
